@@ -1295,15 +1295,83 @@ var _ = token.NoPos
 // Normalize brings the loaded program into the normal form the rules are written against.
 func (p *Program) Normalize() {
 	p.anchors = map[string]bool{}
-	for _, n := range anchorTable {
-		p.anchors[n] = true
+	for _, a := range anchorTable {
+		p.anchors[a.Name] = true
 	}
 
 	for _, n := range primitiveAnchors {
 		p.anchors[n] = true
 	}
 
+	p.resolveRenamedAnchors()
+
 	p.Inline = p.InlineAll()
+}
+
+// sigOf renders a function's signature without parameter names (and, for methods, without the receiver).
+func sigOf(f *ssa.Function) string {
+	sig := f.Signature
+	part := func(t *types.Tuple) string {
+		var ps []string
+		for i := range t.Len() {
+			ps = append(ps, trimMod(types.TypeString(t.At(i).Type(), nil)))
+		}
+
+		return "(" + strings.Join(ps, ",") + ")"
+	}
+
+	v := ""
+	if sig.Variadic() {
+		v = "..."
+	}
+
+	return part(sig.Params()) + v + part(sig.Results())
+}
+
+// resolveRenamedAnchors: an anchor of the table that no longer exists under its name is looked for
+// under another name — the only unexported function of the same package and receiver with the same
+// signature that is not itself an anchor. A unique candidate is adopted (and protected from
+// inlining); otherwise the anchor stays unresolved and the rules that need it report that.
+func (p *Program) resolveRenamedAnchors() {
+	p.renamed = map[string]*ssa.Function{}
+	p.canonName = map[*ssa.Function]string{}
+
+	byName := map[string]*ssa.Function{}
+
+	for _, f := range p.AllOwnFuncs() {
+		if f.Parent() == nil {
+			byName[FuncName(f)] = f
+		}
+	}
+
+	prefixOf := func(name string) string { // "(*pkg/x.T)." or "pkg/x."
+		return name[:strings.LastIndex(name, ".")+1]
+	}
+
+	for _, a := range anchorTable {
+		if _, ok := byName[a.Name]; ok || a.Sig == "" {
+			continue
+		}
+
+		var cands []*ssa.Function
+
+		for n, f := range byName {
+			if prefixOf(n) != prefixOf(a.Name) || p.anchors[n] || !isUnexported(f.Name()) || sigOf(f) != a.Sig {
+				continue
+			}
+
+			cands = append(cands, f)
+		}
+
+		if len(cands) == 1 {
+			p.renamed[a.Name] = cands[0]
+			p.canonName[cands[0]] = a.Name[strings.LastIndex(a.Name, ".")+1:]
+			p.anchors[FuncName(cands[0])] = true
+			p.Renames = append(p.Renames, a.Name+" → "+FuncName(cands[0]))
+		}
+	}
+
+	sort.Strings(p.Renames)
 }
 
 // StaleAnchors lists unexported functions a rule asked for by name that are missing from the
@@ -1378,10 +1446,24 @@ func GenAnchors(p *Program, w io.Writer) {
 	fmt.Fprintln(w)
 	fmt.Fprintln(w, "// anchorTable lists the unexported functions that rules resolve by name. Calls to them are kept")
 	fmt.Fprintln(w, "// as calls by the inlining normal form; every other unexported same-package helper is inlined.")
-	fmt.Fprintln(w, "var anchorTable = []string{")
+	fmt.Fprintln(w, "// Sig is the signature at the time the table was generated: an anchor that was merely renamed is")
+	fmt.Fprintln(w, "// found again through it (see resolveRenamedAnchors).")
+	fmt.Fprintln(w, "var anchorTable = []struct{ Name, Sig string }{")
+
+	byName := map[string]*ssa.Function{}
+	for _, f := range p.AllOwnFuncs() {
+		if f.Parent() == nil {
+			byName[FuncName(f)] = f
+		}
+	}
 
 	for _, n := range names {
-		fmt.Fprintf(w, "\t%q,\n", n)
+		sig := ""
+		if f := byName[n]; f != nil {
+			sig = sigOf(f)
+		}
+
+		fmt.Fprintf(w, "\t{%q, %q},\n", n, sig)
 	}
 
 	fmt.Fprintln(w, "}")
